@@ -3,6 +3,7 @@ import IweModel.Model.Wf
 import IweModel.Model.Squash
 import IweModel.Model.Paths
 import IweModel.Model.Actions
+import IweModel.Model.Hints
 
 namespace Iwe.GraphOps
 open Iwe Codec
@@ -32,7 +33,11 @@ def stateS (want : List String) (g : Graph) (nlines : List (String × Nat)) : Se
   let spaths := on "spaths" fun _ => Sexp.list (.atom "spaths" :: (Paths.searchPaths g).map fun sp =>
     .list [.str sp.text, natS sp.rank, .str sp.key, .atom (if sp.root then "true" else "false"), natS sp.line, .list (sp.path.map natS)])
   let metas := on "meta" fun _ => Sexp.list (.atom "meta" :: keys.map fun k => .list [.str k, optStrS (assocGet g.metadata k)])
-  .list [.atom "state", arena, keysS, titles, md, brefs, irefs, ranges, atS, metas, paths, spaths]
+  -- computed on request only (older requests without a parts list do not get it)
+  let hints := if want.contains "hints" then Sexp.list (.atom "hints" :: keys.map fun k =>
+      .list [.str k, exceptS (fun hs => Sexp.list (.atom "ok" :: hs.map fun (h : Hints.Hint) => .list [.str h.1, natS h.2])) (Hints.inlayHints g k)])
+    else .list [.atom "hints", .atom "skipped"]
+  .list [.atom "state", arena, keysS, titles, md, brefs, irefs, ranges, atS, metas, paths, spaths, hints]
 
 def entry? : Sexp → Except String (String × Nat × Document)
   | .list [.str k, n, d] => do return (k, ← nat? n, ← document? d)
